@@ -34,4 +34,8 @@ Definition verdict (same spec_impl : bool) (region : option N) (nontrivial : boo
     if spec_impl then (if nontrivial then v_agree else v_agree_trivial)
     else match region with Some k => v_known k | None => v_model_spec_fails end
   else
-    if spec_impl then v_disagree else v_disagree_spec_fails.
+    if spec_impl then
+      (* inside a known-finding region an implementation that differs from the
+         (defective) model but satisfies the spec has been repaired: no alarm *)
+      match region with Some _ => v_agree | None => v_disagree end
+    else v_disagree_spec_fails.
